@@ -223,6 +223,18 @@ func (c *ctx) wireCases(e *psEnv, r *vlib.Rand, round int, ctx context.Context, 
 		p.data, p.deliver, p.peerNo = append(marshal(message.Message{Cid: x}), r.Bytes(5)...), true, idP
 		ps = append(ps, p)
 	}
+	{
+		// two CIDs over one multihash (raw, then dag-cbor): both are deliverable
+		p, x := mk("same-multihash-base")
+		p.data, p.deliver, p.peerNo = marshal(message.Message{Cid: x}), true, idP
+		ps = append(ps, p)
+		q, _ := mk("same-multihash-other-codec")
+		y := cid.NewCidV1(cid.DagCBOR, x.Hash())
+		cids[y.String()] = q.cidNo
+		q.cids = []cid.Cid{y}
+		q.data, q.deliver, q.peerNo = marshal(message.Message{Cid: y}), true, idP
+		ps = append(ps, q)
+	}
 	// --- at the caps ---
 	for _, nAddrs := range []int{cbg.MaxLength / 4, cbg.MaxLength} {
 		kind := "addresses-at-cap"
@@ -264,7 +276,9 @@ func (c *ctx) wireCases(e *psEnv, r *vlib.Rand, round int, ctx context.Context, 
 			c.Note(fmt.Sprintf("wire payload %s (%d bytes) could not be published: %v", p.kind, len(p.data), err))
 			continue
 		}
-		time.Sleep(40 * time.Millisecond)
+		// a large payload takes longer through pubsub's validation pipeline than the small
+		// sentinel behind it: give it a head start proportional to its size
+		time.Sleep(40*time.Millisecond + time.Duration(len(p.data)/4096)*time.Millisecond)
 		sno, sx := fresh()
 		if err := e.sender.Send(ctx, message.Message{Cid: sx, ExtraData: []byte("sentinel")}); err != nil {
 			panic(err)
@@ -300,7 +314,22 @@ func (c *ctx) wireCases(e *psEnv, r *vlib.Rand, round int, ctx context.Context, 
 					fail(p.kind+":extra-delivery", fmt.Sprintf("receiver %s delivered cid %d twice or out of order after payload %s", rc.name, g2, p.kind))
 				}
 			} else if expectDelivery {
-				fail(p.kind+":not-delivered", fmt.Sprintf("receiver %s dropped payload %s (cid %d), which is a valid announcement by an allowed peer", rc.name, p.kind, p.cidNo))
+				// pubsub validates messages concurrently: a large payload may be overtaken by
+				// the sentinel; it must still arrive
+				late := false
+				if len(p.data) > 16<<10 {
+					if a2, err := nextAnn(rc.r, wait); err == nil {
+						g2, gp2, ga2 := e.annOf(a2, cids)
+						if g2 == p.cidNo && gp2 == p.peerNo && sameInts(ga2, p.addrs) {
+							late = true
+							seen = "(Some " + coqAnnP(g2, gp2, ga2) + ")"
+							c.Count("wire:large-payload-overtaken-by-the-sentinel")
+						}
+					}
+				}
+				if !late {
+					fail(p.kind+":not-delivered", fmt.Sprintf("receiver %s dropped payload %s (cid %d), which is a valid announcement by an allowed peer", rc.name, p.kind, p.cidNo))
+				}
 			}
 			if p.deliver && !rc.ok {
 				continue // rejected by this receiver's allow filter: not a statement about the watcher
